@@ -259,5 +259,11 @@ def run(ctx):
 
 def replay(data):
     rp = data["violation"]["replay"]
-    print("directory members:", rp["names"], "handler:", rp["handler"])
+    if rp.get("big_link_file"):
+        from props import c08
+        r = Result()
+        c08.big_link_file(r, "C07")
+        print(r.violations)
+        return 0
+    print("directory members:", rp.get("names"), "handler:", rp.get("handler"), "selector:", rp.get("selector"))
     return 0
